@@ -63,7 +63,7 @@ func checkIndexedSelect(c *sim.Ctx, d *sqlittle.DB, t *sq.Table, ix *sq.Index, c
 		}
 		want[i] = projectRow(t, e.Pos, cols)
 	}
-	if eq, at := rowsEq(want, r.Rows, true); !eq {
+	if eq, at := rowsEqModDefaults(c, t, cols, want, r.Rows); !eq {
 		detail["row"] = at
 		detail["want"] = fmtRows(want, at)
 		detail["got"] = fmtRows(r.Rows, at)
@@ -245,7 +245,7 @@ func checkEq(c *sim.Ctx, d *sqlittle.DB, t *sq.Table, ix *sq.Index, key []sq.Val
 		return
 	}
 	want := expectEq(t, ix, key, cols)
-	if eq, at := rowsEq(want, r.Rows, true); !eq {
+	if eq, at := rowsEqModDefaults(c, t, cols, want, r.Rows); !eq {
 		// name the deciding feature for the signature
 		feature := "other"
 		if len(key) > 0 {
